@@ -5,8 +5,12 @@
 Usage: tools/seedverify.py <dir with patch.diff demo.rs meta.json>   (prints a JSON verdict, rc 0 if confirmed)"""
 import json, os, re, shutil, subprocess, sys, tempfile
 
+EXTRA_ENV = {}
+
 def sh(cmd, cwd, timeout=3000):
     e = dict(os.environ); e["CARGO_NET_OFFLINE"] = "true"
+    if cmd[:2] in (["cargo", "test"], ["cargo", "run"]) and "seed_demo" in cmd:
+        e.update(EXTRA_ENV)
     p = subprocess.run(cmd, cwd=cwd, env=e, stdout=subprocess.PIPE, stderr=subprocess.STDOUT, text=True, timeout=timeout)
     return p.returncode, p.stdout
 
@@ -45,6 +49,8 @@ def main():
             mj = json.load(open(os.path.join(d, "meta.json")))
             if isinstance(mj.get("demo_cmd"), list):
                 demo_cmd = mj["demo_cmd"]
+            if isinstance(mj.get("demo_env"), dict):
+                EXTRA_ENV.update(mj["demo_env"])
         except Exception:  # noqa: BLE001
             pass
         verdict["demo_cmd"] = " ".join(demo_cmd)
